@@ -27,7 +27,7 @@ type nwInput struct {
 	Choices []int    `json:"choices,omitempty"`
 	Sticky  int      `json:"sticky"`
 	Seed    int64    `json:"seed"`
-	Fine    bool     `json:"fine,omitempty"` // oracle-only run parking at every skiplist-level point as well
+	MM      bool     `json:"mm,omitempty"`   // user-managed memory on the guard allocator
 }
 
 func nwGen(r *rand.Rand) *nwInput {
@@ -38,7 +38,7 @@ func nwGen(r *rand.Rand) *nwInput {
 func nwRun(in *nwInput, r *rand.Rand, sink *CaseSink, replay bool) {
 	installCounterHook()
 	counter := nitro.VerifYieldHook
-	mv := &mvInput{Mode: "mvcc", Cmp: in.Cmp}
+	mv := &mvInput{Mode: "mvcc", Cmp: in.Cmp, MM: in.MM}
 	var e *mvExec
 	if replay {
 		mv.Ops = in.Setup
@@ -351,18 +351,27 @@ func nwRun(in *nwInput, r *rand.Rand, sink *CaseSink, replay bool) {
 		}
 		e.ref.snapRef[sn] = 0
 	}
-	e.db.GC()
-	e.quiesce()
-	e.db.Close()
+	e.finish()
+	if len(e.bad) > 0 {
+		sink.Fail(idx, e.bad[0], e.sig, in)
+	}
 	_ = bytes.Equal
 	_ = sort.Ints
 }
 
 func init() {
-	commands["nitro"] = func(a runArgs) error {
-		sink := NewSink(a.out, "C03", "Tie.NitroConcTie", a.seed)
+	commands["nitro"] = nwCommand("C03", false)
+	commands["nitro-mm"] = nwCommand("C04", true)
+}
+
+func nwCommand(prop string, mm bool) func(a runArgs) error {
+	return func(a runArgs) error {
+		sink := NewSink(a.out, prop, "Tie.NitroConcTie", a.seed)
 		sink.perFile = 100
-		sink.meta.Rule = "an initial store built over 1..3 earlier epochs (deletes, re-inserts, one snapshot per epoch kept open so dead versions stay present), then 2..3 writer goroutines with 1..3 Put/Delete/GetNode each over 3..5 keys (both comparators), random schedules parking before the level-0 publish CAS of Put and between GetNode and DeleteNode of Delete; compared with the model: labels, per-op results with node identities, the final physical store and the writers' counts; oracle: brute-force linearizability of the call/return history and 'the next snapshot is the outcome of a linearization'; non-trivial = some key is hit by >=2 writers and at least one operation was preempted"
+		if mm {
+			sink.meta.Rule = "user-managed memory on the guard allocator (a use-after-free faults, double frees and leaks are recorded): "
+		}
+		sink.meta.Rule += "an initial store built over 1..3 earlier epochs (deletes, re-inserts, one snapshot per epoch kept open so dead versions stay present), then 2..3 writer goroutines with 1..3 Put/Delete/GetNode each over 3..5 keys (both comparators), random schedules parking before the level-0 publish CAS of Put and between GetNode and DeleteNode of Delete; compared with the model: labels, per-op results with node identities, the final physical store and the writers' counts; oracle: brute-force linearizability of the call/return history and 'the next snapshot is the outcome of a linearization'; non-trivial = some key is hit by >=2 writers and at least one operation was preempted"
 		if a.replay != "" {
 			bs, err := os.ReadFile(a.replay)
 			if err != nil {
@@ -380,6 +389,7 @@ func init() {
 		top := rand.New(rand.NewSource(a.seed))
 		for i := 0; i < a.n; i++ {
 			in := nwGen(top)
+			in.MM = mm
 			sink.Begin(in)
 			nwRun(in, rand.New(rand.NewSource(in.Seed)), sink, false)
 		}
